@@ -141,3 +141,19 @@ package verifspec
 //@   requires arrayPtrType.elem.len >= 0
 //@   abstract_rest
 //@   throws_when slice.$length < arrayPtrType.elem.len
+
+// The same on arrays of struct or array values, distinct arrays (Go's copy / array assignment for value elements): no
+// element object of dst is replaced -- each is filled by the element type's own copy from the corresponding element of
+// src -- and neither array changes as an array.  (The overlapping case moves contents in place; it is not under contract.)
+//@ js prelude.js $copyArray values
+//@ property C07
+//@   prune
+//@   param dst: arr, src: arr, dstOffset: nat, srcOffset: nat, n: nat, elem: desc
+//@   returns undef
+//@   requires valuekind(elem.kind) && !sameobj(dst, src) && isplain(dst) && isplain(src)
+//@   requires dstOffset + n <= len(dst) && srcOffset + n <= len(src)
+//@   requires forall2(a, b, 0 <= a && a < b && b < n ==> dst[dstOffset + a] != dst[dstOffset + b])
+//@   loop 2 invariant 0 <= i && i <= n
+//@   loop 2 invariant forall(k, 0, i, copiedFrom(dst[dstOffset + k]) == src[srcOffset + k] && copiedBy(dst[dstOffset + k]) == elem)
+//@   ensures forall(k, 0, n, copiedFrom(dst[dstOffset + k]) == src[srcOffset + k] && copiedBy(dst[dstOffset + k]) == elem)
+//@   ensures forall(k, 0, len(dst), dst[k] == old(dst[k])) && forall(k, 0, len(src), src[k] == old(src[k]))
